@@ -145,11 +145,15 @@ void make_values(const vf_type *T, int m, int n, uint64_t pat, int scheme, dmat 
         case 17: { uint64_t h2 = (uint64_t)(i * 1315423911u + j * 2654435761u + 97u) * 0x9E3779B97F4A7C15ull; h2 ^= h2 >> 31;     /* generic magnitudes: no two entries tie */
                    v = ((h2 & 1) ? -1.0 : 1.0) * (1.0 + (double)((h2 >> 8) % 9973) / 9973.0) * ldexp(1.0, (int)((h2 >> 32) % 7) - 3); break; }
         case 16: v = (double)((i * 3 + j * 5 + 1) % 7 - 3); if (v == 0) v = 4; v = ldexp(v, (T->id == TS || T->id == TC) ? -140 : -1065); break;   /* V1 scaled into the subnormal range: non-zero pivot candidates below the safe minimum */   /* V1 negated; complex: phases whose real and imaginary parts have opposite signs */
+        case 18: v = (double)((i * 3 + j * 5 + 1) % 7 - 3); if (v == 0) v = 4; break;      /* V1; complex: almost real / almost imaginary phases (below) */
+        case 19: v = (double)((i * 3 + j * 5 + 1) % 7 - 3); if (v == 0) v = 4; v = ldexp(v, (T->id == TS || T->id == TC) ? 70 : 600); break;    /* V1 scaled uniformly so that |a|^2 overflows but |a| is far inside the range */
+        case 20: v = (double)((i * 3 + j * 5 + 1) % 7 - 3); if (v == 0) v = 4; v = ldexp(v, (T->id == TS || T->id == TC) ? -75 : -600); break;  /* ... and so that |a|^2 underflows */
         default: v = 1.0;
         }
         if (vf_pat_gen == 3) { int h3 = (int)(pat & 255); if (i < h3 && j < h3 && i != j && i != 0 && j != 0) v = 0.0; }   /* the extra cells of generator 3 are stored zeros */
         double _Complex z = v;
         if (T->cplx && scheme == 15) { switch ((i + 2 * j) & 3) { case 0: z = v * (0.6 - 0.8 * I); break; case 1: z = v * (-0.8 + 0.6 * I); break; case 2: z = v * (0.25 - 1.0 * I); break; default: z = v * (-I); } DM(A, i, j) = (xc)z; DZ(A, i, j) = 1; continue; }
+        if (T->cplx && scheme == 18) { z = ((i + j) & 1) ? v * (1.0 + ldexp(1.0, -24) * I) : v * (ldexp(1.0, -24) - I); DM(A, i, j) = (xc)z; DZ(A, i, j) = 1; continue; }   /* one part 2^-24 of the other: |re|+|im| differs from max(|re|,|im|) in the 8th digit */
         if (T->cplx && scheme != 0 && scheme != 13 && scheme != 14 && scheme != 16) z = v * phase(i + 2 * j);
         DM(A, i, j) = (xc)z; DZ(A, i, j) = 1;
     }
